@@ -196,6 +196,9 @@ func init() {
 		e.exactDecLen = a[0].(*T).IsTrue()
 		return nil
 	})
+	reg(vp+"And", func(e *Engine, fn *ssa.Function, a []Value) Value { return And(a[0].(*T), a[1].(*T)) })
+	reg(vp+"Or", func(e *Engine, fn *ssa.Function, a []Value) Value { return Or(a[0].(*T), a[1].(*T)) })
+	reg(vp+"Implies", func(e *Engine, fn *ssa.Function, a []Value) Value { return Implies(a[0].(*T), a[1].(*T)) })
 	reg(vp+"Thorough", func(e *Engine, fn *ssa.Function, a []Value) Value { return BoolConst(e.cfg.Thorough) })
 	reg(vp+"CollisionFree", func(e *Engine, fn *ssa.Function, a []Value) Value {
 		e.collisionFree = a[0].(*T).IsTrue()
